@@ -184,6 +184,13 @@ def genC19 (tier : Tier) (seed : Nat) (o : Out) : IO Unit := do
 def genC19g (tier : Tier) (seed : Nat) (o : Out) : IO Unit := do
   let genWs := G19.genWs
   let genArgs := G19.genArgs
+  -- argument lists that differ only in which `,` / `=` are escaped: they read the same once the backslashes are gone, and are
+  -- different lists all the same (two generators of one invocation, in both orders, and one generator named twice)
+  for (a, b) in [("defines=DEBUG\\,level\\=2", "defines=DEBUG,level=2"), ("a\\=b=c", "a=b\\=c"), ("k=v\\,w", "k=v,w"), ("x\\,y", "x,y"),
+                 ("k\\=v", "k=v"), ("k=a\\=b\\,c", "k=a\\=b,c"), ("p=1,q=2", "p=1\\,q=2,")] do
+    for (g1, g2) in [("./g1,", "./g2,"), ("./g2,", "./g1,"), ("./g1,", "./g1,")] do
+      o.line ((G19.multiCase "gens" [(g1 ++ a).toList, (g2 ++ b).toList]).replace "multi\tgens" "gens\tgens")
+      o.line ((G19.multiCase "gens" [(g1 ++ b).toList, (g2 ++ a).toList, (g1 ++ a).toList]).replace "multi\tgens" "gens\tgens")
   let n := if tier == .thorough then 600 else 120
   let mut r := Rng.mk' (seed + 1919)
   for i in [0:n] do
